@@ -5,6 +5,10 @@ package isobmff
 
 //@ pool readerPool *bufio.Reader
 
+// A box read through the io.Reader / exif2.BufferedReader interfaces is a window onto the reader's buffered stream:
+// its ghost stream (pos, data, ...) is that of b.reader.br.
+//@ streamalias *isobmff.box reader.br
+
 // ---- the box chain ----
 // A box limits what may be read through it; boxes nest through `outer`. The chain is at most 3 boxes long on every path
 // of the library (top-level meta/moov/uuid -> iprp/iref/uuid/PRVW/Exif item -> ipma/CMTn/PRVW); that bound is a
@@ -482,6 +486,7 @@ package isobmff
 // of "any sequence of Peek/Discard/Read calls" is the ASSUMED part of the callback contract.
 //@ dep callback isobmff.Reader.ExifReader
 //@   names r h -> err
+//@   requires r != nil && is(r, "*isobmff.box")
 //@   requires [C11] wf2(as(r, "*isobmff.box"))
 //@   requires [C11] cmtDir(as(r, "*isobmff.box").boxType, h.FirstIfd)
 //@   requires [C06 C11] h.TiffHeaderOffset == 0 && h.ExifLength == uint32(as(r, "*isobmff.box").remain + 8)
@@ -495,12 +500,14 @@ package isobmff
 
 //@ dep callback isobmff.Reader.XMPReader
 //@   names r -> err
+//@   requires r != nil && is(r, "*isobmff.box")
 //@   requires [C11] wf2(as(r, "*isobmff.box"))
 //@   modifies stream(as(r, "*isobmff.box").reader.br), as(r, "*isobmff.box").remain, as(r, "*isobmff.box").outer.remain, as(r, "*isobmff.box").outer.outer.remain, as(r, "*isobmff.box").reader.offset, foreign(isobmff)
 //@   ensures remOK(as(r, "*isobmff.box")) && pos(as(r, "*isobmff.box").reader.br) >= old(pos(as(r, "*isobmff.box").reader.br)) && noInc(as(r, "*isobmff.box")) && charged(as(r, "*isobmff.box")) && exactTop(as(r, "*isobmff.box"))
 
 //@ dep callback isobmff.Reader.PreviewImageReader
 //@   names r h -> err
+//@   requires r != nil && is(r, "*isobmff.box")
 //@   requires [C11] wf2(as(r, "*isobmff.box"))
 //@   requires [C11] h.Size == be32At(as(r, "*isobmff.box").reader.br, pos(as(r, "*isobmff.box").reader.br) - 4) && h.Width == be16At(as(r, "*isobmff.box").reader.br, pos(as(r, "*isobmff.box").reader.br) - 10) && h.Height == be16At(as(r, "*isobmff.box").reader.br, pos(as(r, "*isobmff.box").reader.br) - 8)
 //@   modifies stream(as(r, "*isobmff.box").reader.br), as(r, "*isobmff.box").remain, as(r, "*isobmff.box").outer.remain, as(r, "*isobmff.box").outer.outer.remain, as(r, "*isobmff.box").reader.offset, foreign(isobmff)
@@ -527,6 +534,7 @@ package isobmff
 //@   props C01
 //@   entry
 //@   requires r != nil
+//@   modifies streams
 //@   ensures r0.br != nil
 
 //@ func (*Reader).Close
